@@ -47,7 +47,6 @@ type held[T signal.SignalTypes] struct {
 // buffers outstanding, against the stub pool with seeded faults.
 func (h *H[T]) C10(rc *runCtx) *Violation {
 	prog, sim := rc.prog, rc.sim
-	sim.WeakObjIDs = true // object numbers are labels only here; the harness must be able to drop a header
 	a := drawAllocator(prog, rc.b)
 	env := drawPoolEnv(rc)
 	// The history continues with probability 1-1/cont after every operation
@@ -380,6 +379,9 @@ func (h *H[T]) C10(rc *runCtx) *Violation {
 				if u.kind == uReslice && u.c%2 == 0 {
 					// b = b.Slice(0, n): the caller keeps only the new view; the
 					// header it got from the pool becomes garbage
+					if hb.hdr != hb.cur {
+						sim.ForgetObj(unsafe.Pointer(hb.hdr))
+					}
 					hb.hdr = hb.cur
 				}
 				if v == nil && hb.shadow != nil {
